@@ -32,7 +32,7 @@ ASSUMPTIONS = [
     "int arguments are Python ints, text arguments are str or None, byte arguments are bytes or None (no other Python types are generated)",
     "a str given to an encoder is encodable as UTF-8 (no lone surrogates)",
     "snappy is not installed: the snappy branches raise NotImplementedError on both sides and are not exercised further",
-    "the monitor is evaluated on arguments the grammar can represent (non-null required strings, distinct (topic, partition) payload keys, magic-1 messages only in Produce v2); other arguments are checked by correspondence only",
+    "the monitor is evaluated on arguments the grammar can represent (non-null required strings, magic-1 messages only in Produce v2); a payload list naming one (topic, partition) twice is refused by the encoders (ValueError, finding F18 repaired) - model and code must both refuse; other out-of-range arguments are checked by correspondence only",
 ]
 
 CORPUS_DIR = os.path.join(VERIF, "corpus", "wire")
@@ -304,6 +304,47 @@ def run_flow(sc, sink):
             sink.mon("bad-wrapper-attributes", sc, ["c04-gzip-attributes"])
 
 
+# --------------------------------------------------------------------------- the two independent grammars against each other
+
+def cross_scenarios(rng, n, big):
+    out = []
+    W.PBAD[0] = 0.0
+    for i in range(n):
+        api = Q.SPEC_REQ_APIS[i % len(Q.SPEC_REQ_APIS)]
+        args = Q.GENERATORS[api](rng, big) if api == "produce" else Q.GENERATORS[api](rng)
+        out.append({"op": "cross", "api": api, "now": rng.choice(W.NOW_CHOICES), "args": " ".join(vr(a) for a in args)})
+    W.PBAD[0] = 0.04
+    return out
+
+
+def run_cross(sc, sink):
+    """Lean grammar (Afkak/Wire/Spec.lean) vs Python grammar (harness/sim/refcodec.py), both directions,
+    on a request value built from generated arguments (no afkak code involved)."""
+    from harness.sim import refcodec as RC
+
+    api = sc["api"]
+    args = parse_args(sc["args"])
+    sv = Q.spec_request(api, args, sc["now"])
+    ref = Q.ref_expected(api, args, sc["now"])
+    if sv is None or ref is None:
+        sc["_cross"] = "no-value"
+        return
+    try:
+        refbytes = RC.encode_request(*ref)
+    except RC.CodecError:
+        sc["_cross"] = "refcodec-refuses"
+        return
+    hv, bv = sv
+    # Lean encodes what refcodec encodes; Lean decodes refcodec's bytes to the value; (refcodec parses the same bytes)
+    sink.corr("spec-enc-req %s %s %s" % (api, vr(hv), vr(bv)), ["ok " + vr(refbytes)], sc)
+    sink.corr("spec-dec-req %s %s" % (api, vr(refbytes)), ["ok " + vr([hv, bv])], sc)
+    hdr, body = RC.parse_request(refbytes, validate_records=False)
+    want_hdr = (ref[0], ref[1], ref[2], ref[3])
+    if hdr != want_hdr or {k: v for k, v in body.items()} != ref[4]:
+        sink.corr("refcodec-parse-of-own-encoding", ["differs"], sc)
+    sc["_cross"] = "checked"
+
+
 # --------------------------------------------------------------------------- version selection on the real client
 
 def version_scenarios(rng, n):
@@ -465,14 +506,17 @@ def run_version(sc, sink, res=None):
     final = client._api_versions
     chosen = []
     client.get_api_version(key).addBoth(chosen.append)
+    clamp = min(chosen[0], 2) if chosen[0] >= 0 else chosen[0]
     for bi, before in enumerate(states_before):
-        magic_before = 1 if (isinstance(before, list) and before) else 0
-        sink.corr("get-api-version %s %s %s" % (vr(sv(before)), vr(key), vr(attempts if before is None else [])),
-                  ["ok " + vr([sv(final), chosen[0], magic_before])], sc)
-        if bi < len(sent):
-            clamp = min(chosen[0], 2) if chosen[0] >= 0 else chosen[0]
-            if sent[bi][0] != clamp:
-                sink.mon("header-version %r differs from clamp(%r)" % (sent[bi][0], chosen[0]), sc, ["c04-version-clamp"])
+        atts = vr(attempts if before is None else [])
+        if sc["api"] == "produce":
+            magic_before = 1 if (isinstance(before, list) and before) else 0
+            # [state after, version to encoder, version to decoder (acks = 1), header version, format chosen before the call]
+            sink.corr("glue-produce %s %s i1" % (vr(sv(before)), atts), ["ok " + vr([sv(final), chosen[0], chosen[0], clamp, magic_before])], sc)
+        else:
+            sink.corr("glue-fetch %s %s" % (vr(sv(before)), atts), ["ok " + vr([sv(final), chosen[0], chosen[0], clamp])], sc)
+        if bi < len(sent) and sent[bi][0] != clamp:
+            sink.mon("header-version %r differs from clamp(%r)" % (sent[bi][0], chosen[0]), sc, ["c04-version-clamp"])
 
 
 # --------------------------------------------------------------------------- running and judging
@@ -490,7 +534,8 @@ def evaluate(ctx, res, sink, refcheck=True):
         if kind == "corr":
             res.traces_validated += 1
             if g != exp:
-                res.disagreements.append({"component": "wire", "scenario": clean(sc), "request": line[:2000], "impl": trunc(exp), "model": trunc(g)})
+                comp = "spec-vs-refcodec" if (sc or {}).get("op") == "cross" else "wire"
+                res.disagreements.append({"component": comp, "scenario": clean(sc), "request": line[:2000], "impl": trunc(exp), "model": trunc(g)})
         else:
             res.count("monitor:" + (g[0] if g else "none"))
             if g and g[0] == "ok":
@@ -528,7 +573,8 @@ def trunc(x, n=600):
 
 RUNNERS = {"pack": run_prim, "runpack": run_prim, "runpackn": run_prim, "rsb": run_prim, "ris": run_prim, "rsa": run_prim, "rst": run_prim,
            "wsb": run_prim, "wis": run_prim, "wsa": run_prim, "wst": run_prim, "slice": run_prim, "wcrc": run_prim, "group": run_prim,
-           "enc-msg": run_msg, "enc-set": run_msg, "create-set": run_msg, "enc": run_req, "flow": run_flow, "version": run_version}
+           "enc-msg": run_msg, "enc-set": run_msg, "create-set": run_msg, "enc": run_req, "flow": run_flow, "version": run_version,
+           "cross": run_cross}
 
 
 def nontrivial(sc):
@@ -555,6 +601,8 @@ def run_scenarios(ctx, res, scenarios, chunk=400):
                                           "model": "(the scenario runs to completion on the unchanged tree)", "trace": traceback.format_exc()[-800:]})
             res.evaluations += 1
             res.count("op:" + sc["op"])
+            if sc["op"] == "cross":
+                res.count("cross:" + sc.get("_cross", "?"))
             if nontrivial(sc):
                 res.nontrivial(clean(sc))
         evaluate(ctx, res, sink)
@@ -570,7 +618,7 @@ def clean_sample(sc):
 def generate(rng, sizes):
     big = sizes["big"]
     return (prim_scenarios(rng, sizes["prim"]) + msg_scenarios(rng, sizes["msg"], big) + req_scenarios(rng, sizes["req"], big)
-            + flow_scenarios(rng, sizes["flow"], big) + version_scenarios(rng, sizes["version"]))
+            + flow_scenarios(rng, sizes["flow"], big) + version_scenarios(rng, sizes["version"]) + cross_scenarios(rng, sizes.get("cross", 0), big))
 
 
 def corpus():
@@ -584,8 +632,8 @@ def corpus():
     return out
 
 
-QUICK = {"prim": 3000, "msg": 900, "req": 4200, "flow": 300, "version": 120, "big": 1 << 16}
-THOROUGH_SHARD = {"prim": 3000, "msg": 1000, "req": 3800, "flow": 350, "version": 120, "big": 1 << 20}
+QUICK = {"prim": 3000, "msg": 900, "req": 4200, "flow": 300, "version": 120, "cross": 1200, "big": 1 << 16}
+THOROUGH_SHARD = {"prim": 3000, "msg": 1000, "req": 3800, "flow": 350, "version": 120, "cross": 1200, "big": 1 << 20}
 
 
 def _shard(args):
